@@ -5,6 +5,7 @@ import GabiModel.Ops.Base
 import GabiModel.CL
 import GabiModel.Proofs
 import GabiModel.Decode
+import GabiModel.JsonFold
 import GabiModel.Prover
 import GabiModel.Keyshare
 import GabiModel.Reuse
@@ -90,7 +91,8 @@ def handle : Handler := fun st op j =>
       | some v => do (← asArr v).mapM asStr : R (List String))
     -- "direct": the proofs are in-memory objects (no wire format, negative integers possible)
     let direct := (getBool j "direct").toOption.getD false
-    match Decode.proofList (← field j "proofs") direct with
+    let tree ← field j "proofs"
+    match Decode.proofList (if direct then tree else JsonFold.apply JsonFold.proofListS tree) direct with
     | .error _ => pure (st, "decode-error")
     | .ok pl =>
       let o := Decode.sigOracle (views j)
@@ -104,7 +106,8 @@ def handle : Handler := fun st op j =>
     let nonce ← getInt j "nonce"
     let issig ← getBool j "issig"
     let direct := (getBool j "direct").toOption.getD false
-    match Decode.proofD (← field j "proof") direct with
+    let tree ← field j "proof"
+    match Decode.proofD (if direct then tree else JsonFold.apply JsonFold.proofDS tree) direct with
     | .error _ => pure (st, "decode-error")
     | .ok p =>
       let o := Decode.sigOracle (views j)
@@ -120,7 +123,7 @@ def handle : Handler := fun st op j =>
     let attrs ← getInts j "attrs"
     let disclosed ← getInts j "disclosed"
     let ts ← getInts j "ts"
-    match Decode.proofD (← field j "proof") with
+    match Decode.proofD (JsonFold.apply JsonFold.proofDS (← field j "proof")) with
     | .error _ => pure (st, "decode-error")
     | .ok p =>
       let o := Decode.sigOracle (views j)
@@ -141,7 +144,7 @@ def handle : Handler := fun st op j =>
     let ctx ← getInt j "context"
     let nonce ← getInt j "nonce"
     let issig ← getBool j "issig"
-    match Decode.proofD (← field j "proof") with
+    match Decode.proofD (JsonFold.apply JsonFold.proofDS (← field j "proof")) with
     | .error _ => pure (st, "decode-error")
     | .ok p =>
       let o := Decode.sigOracle (views j)
@@ -212,7 +215,7 @@ def handle : Handler := fun st op j =>
     let ctx ← getInt j "context"
     let nonce ← getInt j "nonce"
     let issig ← getBool j "issig"
-    match Decode.proofD (← field j "proof") with
+    match Decode.proofD (JsonFold.apply JsonFold.proofDS (← field j "proof")) with
     | .error _ => pure (st, "decode-error")
     | .ok p =>
       let o := Decode.sigOracle (views j)
@@ -306,7 +309,8 @@ def handle : Handler := fun st op j =>
     let ctx ← getInt j "context"
     let nonce ← getInt j "nonce"
     let direct := (getBool j "direct").toOption.getD false
-    match Decode.proofU (← field j "proof") direct with
+    let tree ← field j "proof"
+    match Decode.proofU (if direct then tree else JsonFold.apply JsonFold.proofUS tree) direct with
     | .error _ => pure (st, "decode-error")
     | .ok p => pure (st, showGoMBool (p.verify pk ctx nonce))
   | "cl-verify" => some do
